@@ -266,9 +266,9 @@ def coll_holds(line, out):
         parts = nb.split(";")
         sx, sy = map(int, parts[0].split(","))
         b = list(map(int, parts[1].split(",")))
-        reach = (sx + b[2] + margin >= lblx and sx + b[0] - margin <= ltrx) or (sy + b[3] + margin >= lbly and sy + b[1] - margin <= ltry)
-        if not reach:
-            continue
+        # "within reach of its limit rectangle": the target ends inside its limit (clause L), so a neighbour it overlaps there is one its
+        # box can reach from inside the limit - no filter of the engine's is taken over here (the engine's own short-circuit at the top
+        # of mergeSlot used to compare the neighbour with the limit of the target's *origin*, in a mixed frame: fix in /repo)
         dm = overlap_depth(tp, placed(b, sx, sy))
         subs = [list(map(int, p.split(","))) for p in parts[2:]]
         ds = [min(dm, overlap_depth(tp, placed(sb, sx, sy))) for sb in subs] if subs else [dm]
